@@ -1,6 +1,7 @@
 package orch
 
 import (
+	"bytes"
 	"encoding/json"
 	"fmt"
 	"os"
@@ -10,6 +11,7 @@ import (
 	"sync"
 
 	"verif/sim/clisim"
+	"verif/sim/corpus"
 	"verif/sim/seam"
 	"verif/sim/tape"
 )
@@ -268,6 +270,20 @@ func CliCheck(prop, tier string) error {
 	ev := &Evidence{PropertyID: prop, Tier: tier, Seed: int64(seed), Level: "exploration", Coverage: map[string]any{}}
 	cov := ev.Coverage
 	libEvals, libDistinct := 0, 0
+	if prop == "C15" {
+		n := 40
+		if tier == "thorough" {
+			n = 600
+		}
+		sl, sruns, ssamples, err := fixedPointSweep(s, runner, seed, n)
+		if err != nil {
+			return Fatal2("fixed-point sweep: %v", err)
+		}
+		lines = append(lines, sl...)
+		libEvals = sruns
+		cov["fixed_point_sweep"] = map[string]any{"what": "the CLI run in place three times (absent, own output left in place, own output with -rm) on conflict-heavy packages of the engine B corpus; the three files must be byte-identical",
+			"moq_processes": sruns, "packages": n, "samples": ssamples}
+	}
 	if prop == "C17" {
 		// library half: Mocker.Mock driven in-process with a fault-injecting io.Writer
 		gb, err := BuildGensim(s)
@@ -375,6 +391,119 @@ func CliReplayFile(path string) error {
 	}
 	if same {
 		fmt.Printf("VIOLATION property=%s replay=%s (reproduced)\n", rp.Property, path)
+		return &ExitError{Code: 1}
+	}
+	fmt.Println("not reproduced on the current tree")
+	return nil
+}
+
+// fixedPointSweep (C15): for conflict-heavy packages of the engine B corpus,
+// run the CLI in place twice with the first output left where it is, then once
+// more with -rm: all three files must be byte-identical (moq's own output,
+// import aliases included, is a fixed point of moq).
+func fixedPointSweep(s *Scratch, runner *clisim.Runner, seed uint64, npkgs int) (lines []string, runs int, samples []string, err error) {
+	spec := corpus.Spec{Seed: seed, NPkgs: npkgs, ConfigsPer: 2}
+	cb := corpus.GenerateB(spec)
+	root := filepath.Join(s.Dir, "fpsweep")
+	if _, err := writeCorpusB(root, cb); err != nil {
+		return nil, 0, nil, err
+	}
+	byPkg := map[string][]*corpus.CellB{}
+	var pkgs []string
+	for _, c := range cb.Cells {
+		if c.Flags.Pkg != "" {
+			continue
+		}
+		if len(byPkg[c.Pkg]) == 0 {
+			pkgs = append(pkgs, c.Pkg)
+		}
+		byPkg[c.Pkg] = append(byPkg[c.Pkg], c)
+	}
+	var mu sync.Mutex
+	os.MkdirAll(ReplayDir, 0o755)
+	Parallel(len(pkgs), 16, func(i int) {
+		dir := filepath.Join(root, "src", pkgs[i])
+		tmp := filepath.Join(root, "tmp", pkgs[i])
+		os.MkdirAll(tmp, 0o755)
+		for _, c := range byPkg[pkgs[i]] {
+			out := filepath.Join(dir, "mock_gen.go")
+			os.Remove(out)
+			args := append(corpus.Flags{Stub: c.Flags.Stub, SkipEnsure: c.Flags.SkipEnsure, WithResets: c.Flags.WithResets, Fmt: c.Flags.Fmt}.Args(), "-out", "mock_gen.go")
+			tail := append([]string{"."}, c.Names...)
+			var files [3][]byte
+			var exits [3]int
+			for k := 0; k < 3; k++ {
+				a := append([]string(nil), args...)
+				if k == 2 {
+					a = append(a, "-rm")
+				}
+				exits[k] = runner.RunPlain(dir, append(a, tail...), tmp)
+				files[k], _ = os.ReadFile(out)
+			}
+			os.Remove(out)
+			mu.Lock()
+			runs += 3
+			cmd := "moq " + strings.Join(append(args, tail...), " ")
+			if len(samples) < 2 {
+				samples = append(samples, fmt.Sprintf("%s in package %s: exits %v, %d bytes three times", cmd, c.Pkg, exits, len(files[0])))
+			}
+			if exits[0] == 0 && (exits[1] != 0 || exits[2] != 0 || !bytes.Equal(files[0], files[1]) || !bytes.Equal(files[0], files[2])) && len(lines) == 0 {
+				what := "the second run over its own output"
+				if exits[1] == 0 && bytes.Equal(files[0], files[1]) {
+					what = "the run with -rm"
+				}
+				rp := map[string]any{"property": "C15", "class": "not-a-fixed-point", "engine": "clisim-sweep", "verif_seed": seed, "corpus": spec, "cell": c,
+					"sources": packageFiles(cb, c.Pkg), "trace": []string{cmd + " (three times: absent, own output in place, own output with -rm)", fmt.Sprintf("exit statuses %v, sizes %d %d %d", exits, len(files[0]), len(files[1]), len(files[2]))}}
+				dst := filepath.Join(ReplayDir, fmt.Sprintf("C15-%d-s0.json", seed))
+				data, _ := json.MarshalIndent(rp, "", " ")
+				os.WriteFile(dst, data, 0o644)
+				lines = append(lines, fmt.Sprintf("VIOLATION property=C15 replay=%s class=not-a-fixed-point :: %s in conflict-heavy package %s: %s differs from the first output (exits %v, %d / %d / %d bytes)",
+					dst, cmd, c.Pkg, what, exits, len(files[0]), len(files[1]), len(files[2])))
+			}
+			mu.Unlock()
+		}
+	})
+	return lines, runs, samples, nil
+}
+
+func packageFiles(cb *corpus.CorpusB, id string) map[string]string {
+	for _, p := range cb.Pkgs {
+		if p.ID == id {
+			return p.Files
+		}
+	}
+	return nil
+}
+
+// SweepReplay re-runs one cell of the fixed-point sweep.
+func SweepReplay(path string) error {
+	data, err := os.ReadFile(path)
+	if err != nil {
+		return Fatal2("%v", err)
+	}
+	var rp struct {
+		Seed   uint64      `json:"verif_seed"`
+		Corpus corpus.Spec `json:"corpus"`
+	}
+	if json.Unmarshal(data, &rp) != nil || rp.Corpus.NPkgs == 0 {
+		return Fatal2("bad replay file")
+	}
+	s, err := NewScratch("replay")
+	if err != nil {
+		return Fatal2("%v", err)
+	}
+	defer s.Remove()
+	bin, _, err := BuildMoqSimos(s)
+	if err != nil {
+		return err
+	}
+	runner := &clisim.Runner{MoqBin: bin, Env: MoqEnv(), Base: filepath.Join(s.Dir, "scn")}
+	lines, _, _, err := fixedPointSweep(s, runner, rp.Seed, rp.Corpus.NPkgs)
+	if err != nil {
+		return Fatal2("%v", err)
+	}
+	if len(lines) > 0 {
+		fmt.Println(lines[0])
 		return &ExitError{Code: 1}
 	}
 	fmt.Println("not reproduced on the current tree")
